@@ -602,10 +602,11 @@ def tlc_cases(ctx):
     from concurrent.futures import ThreadPoolExecutor
 
     tier = "quick" if ctx.quick else "thorough"
+    heap = "2g" if ctx.quick else "6g"   # six JVMs run side by side
     env = {"C10_SCHEMAS": core.write_tlc_json(os.path.join(core.scratch(), "c10_schemas.json"), schema_table())}
     jobs = {
-        "impl": ("VersionConvert", _impl_cfg(f"VersionConvert_{tier}.cfg"), dict(workers=max(2, core.NCPU // 2), timeout=2400)),
-        "design": ("VersionConvert", f"VersionConvert_design_{tier}.cfg", dict(workers=max(2, core.NCPU // 2), timeout=2400)),
+        "impl": ("VersionConvert", _impl_cfg(f"VersionConvert_{tier}.cfg"), dict(workers=max(2, core.NCPU // 2), timeout=2400, heap=heap)),
+        "design": ("VersionConvert", f"VersionConvert_design_{tier}.cfg", dict(workers=max(2, core.NCPU // 2), timeout=2400, heap=heap)),
     }
     for w in ("bites", "vacuity_adapter", "vacuity_fallback", "vacuity_refusal"):
         jobs[w] = ("VersionConvert", f"VersionConvert_{w}.cfg", dict(workers=1, timeout=600, heap="1g"))
